@@ -264,6 +264,37 @@ def prox_cqd_stream(rep, rng, n):
                 return
 
 
+def sliding_best_stream(rep, rng, n):
+    """SlidingBoundariesArchives that really remap: after every operation best_elite is a complete entry of the CURRENT geometry -- its index
+    is the cell its measures map to now -- and carries obj_max (a remap rebuilds the archive, so no historical best outlives it)"""
+    import c15
+    for _ in range(n):
+        spec = c15.gen_spec(rng, "quick")
+        ops = c15.gen_ops(rng, spec, rng.randint(6, 24))
+        archive, table = au.make_archive(spec), {}
+        rep.count("sliding_best_cases")
+        for step, op in enumerate(ops):
+            archive = au.relay(archive, spec, step)
+            try:
+                au.apply_op(archive, spec, op, table, obs=False)
+            except Exception:  # noqa
+                break
+            be = archive.best_elite
+            if be is None:
+                continue
+            idx = int(archive.index_of_single(np.asarray(be["measures"])))
+            problem = None
+            if idx != int(be["index"]):
+                problem = "best_elite claims index %d, its measures %s map to cell %d under the current boundaries" % (int(be["index"]), np.asarray(be["measures"]).tolist(), idx)
+            elif float(be["objective"]) != float(archive.stats.obj_max):
+                problem = "best_elite has objective %r, obj_max is %r" % (float(be["objective"]), float(archive.stats.obj_max))
+            if problem:
+                rep.violation("SlidingBoundariesArchive after operation %d: %s" % (step, problem),
+                              {"kind": "property", "broken": "C06 (best_elite is a complete stored entry with objective obj_max)", "case": {"spec": spec, "ops": ops[:step + 1]}},
+                              True, {"kind": "best-elite-stale-after-remap"})
+                return
+
+
 def final_only_stream(rep, rng, n):
     """histories during which NOTHING is read (no stats, no best_elite, no data): only the add feedback is kept.  At the end obj_max must
     be the highest objective accepted since the last clear and best_elite a complete accepted entry with that objective -- also when its
@@ -407,3 +438,4 @@ def check(rep, tier, seed, driver):
             break
     final_only_stream(rep, rng, 150 if tier == "quick" else 2500)
     prox_cqd_stream(rep, rng, 25 if tier == "quick" else 400)
+    sliding_best_stream(rep, rng, 60 if tier == "quick" else 600)
